@@ -53,6 +53,9 @@ class Report:
         solver_time = {}
         known_seen = []
         for r in self.records:
+            if r['kind'] == 'timeout':
+                undecided.append(f"{r['job']}: {r['error']}")
+                continue
             if r['kind'] == 'error':
                 errors.append(f"{r['job']}: {r['error']}")
                 if verbose:
@@ -104,8 +107,11 @@ class Report:
         vcs = [o for o in obligations if o['kind'] not in ('cover', 'canary')]
         n_obl = len(obligations)
         n_dis = sum(1 for o in obligations if o['status'] == 'discharged')
+        seen_lines = set()
         for v in violations:
-            print(v['line'])
+            if v['line'] not in seen_lines:
+                print(v['line'])
+                seen_lines.add(v['line'])
         for e in errors:
             print(f'CHECKER-ERROR {e}', file=sys.stderr)
         for u in undecided:
